@@ -241,8 +241,16 @@ def r5_limits(run, F):
         if n.get("k") == "Let" and n.get("init", {}).get("k") == "Call" and \
                 (hirq.callee(n["init"]) or "").endswith("Vec::with_capacity"):
             arg = n["init"]["a"][0]
-            caps.append((n["pat"].get("name"), hirq.local_name_of(arg)))
-    soa = {name: arg for name, arg in caps if name in ("tokens", "token_vaps", "token_locations")}
+            caps.append((n["pat"].get("lid"), hirq.unwrap_trivial(arg).get("lid")))
+    # which field of the Tokens value each of these vectors initialises
+    field_of = {}
+    for pth, node in hirq.constructs(e["hir"]):
+        if node.get("k") == "Struct" and pth.endswith("Tokens"):
+            for f in node["fields"]:
+                fe = hirq.unwrap_trivial(f["e"])
+                if fe.get("k") == "Path" and fe.get("rk") == "Local":
+                    field_of[fe.get("lid")] = f["name"]
+    soa = {field_of.get(lid): arg for lid, arg in caps if field_of.get(lid) in ("tokens", "token_vaps", "token_locations")}
     run.ob("R5-SOA-CAPACITY", LT + "Tokens::empty", len(soa) == 3 and len(set(soa.values())) == 1 and None not in soa.values(),
            F.where(e), "tokens/token_vaps/token_locations must be allocated with the same capacity local", sample=soa)
 
@@ -386,11 +394,9 @@ def r6_min_take(run, F):
             for alt in hirq.pat_alts(a["pat"]):
                 starters.add(hirq.pat_key(alt))
     pd = F.body("delta::parser::parse_declaration")
-    md = None
-    for mm in hirq.matches(pd["hir"]):
-        if hirq.local_name_of(mm["scrut"]) == "declaring_token":
-            md = mm
-    run.require(md is not None, "match declaring_token not found in parse_declaration")
+    mds = hirq.matches_on_type(F.lib, pd["hir"], "lexer::BaseToken", 5)
+    run.require(len(mds) == 1, "the match over the declaring token was not found in parse_declaration (%d candidates)" % len(mds))
+    md = mds[0]
     dispatched = set()
     for a in md["arms"]:
         for alt in hirq.pat_alts(a["pat"]):
@@ -468,11 +474,10 @@ def handled_variants(match):
 
 def r10_args_covered(run, F):
     cb = F.body(CONSUME)
-    m = None
-    for mm in hirq.matches(cb["hir"]):
-        if hirq.local_name_of(mm["scrut"]) == "expected":
-            m = mm
-    run.require(m is not None, "match on `expected` not found in Tokens::consume")
+    ms_ = [mm for mm in hirq.matches_on_type(F.lib, cb["hir"], "lexer::BaseToken", 5)
+           if hirq.unwrap_trivial(mm["scrut"]).get("lid") in [q.get("lid") for q in cb.get("params", [])]]
+    run.require(len(ms_) == 1, "the match over the expected-token parameter was not found in Tokens::consume (%d candidates)" % len(ms_))
+    m = ms_[0]
     ok, catch_panics = handled_variants(m)
     passed = {}
     n_sites = 0
@@ -497,17 +502,14 @@ def r10_args_covered(run, F):
                sample={"arg": v, "sites": wh[:5], "handled": sorted(ok)})
     # parse_word_declaration(declaring_token)
     wb = F.body("delta::parser::parse_word_declaration")
-    mw = None
-    for mm in hirq.matches(wb["hir"]):
-        if hirq.local_name_of(mm["scrut"]) == "declaring_token":
-            mw = mm
-    run.require(mw is not None, "match declaring_token not found in parse_word_declaration")
+    mws = [mm for mm in hirq.matches_on_type(F.lib, wb["hir"], "lexer::BaseToken", 2)
+           if hirq.unwrap_trivial(mm["scrut"]).get("lid") in [q.get("lid") for q in wb.get("params", [])]]
+    run.require(len(mws) == 1, "the match over the declaring-token parameter was not found in parse_word_declaration (%d candidates)" % len(mws))
+    mw = mws[0]
     okw, cpw = handled_variants(mw)
     pd = F.body("delta::parser::parse_declaration")
     found = False
-    for mm in hirq.matches(pd["hir"]):
-        if hirq.local_name_of(mm["scrut"]) != "declaring_token":
-            continue
+    for mm in hirq.matches_on_type(F.lib, pd["hir"], "lexer::BaseToken", 5):
         for a in mm["arms"]:
             if any(hirq.callee(c) == "delta::parser::parse_word_declaration" for c in hirq.calls(a["body"])):
                 found = True
@@ -547,7 +549,7 @@ def r11_eos(run, F):
                         is_err = any(c in ("v1::Err", "result::Result::Err") or c.endswith("::Err") for c in cons)
                         pan = any(hirq.panic_kind(c) for c in hirq.calls(a["body"]))
                         catch_err = is_err or pan
-            run.ob("R11-EOS-REJECTED", "%s|match@%s" % (b["npath"], hirq.local_name_of(sc) or "take()"),
+            run.ob("R11-EOS-REJECTED", "%s|match@%s" % (b["npath"], "local" if hirq.local_name_of(sc) else "take()"),
                    (not names_eos) and catch_err is True, F.where(b, m),
                    "a match on a taken token must send EndOfSource (catch-all arm) to Err(..), never accept it",
                    sample={"fn": b["npath"], "arms": [hirq.pat_key(a["pat"]) for a in m["arms"]][:20]})
